@@ -211,6 +211,26 @@ def exec_state(df, st, pool, emb, part, scratch):
     if ch:
         parts = sorted({p for v in ch.values() for p in v})
         part.violation(key("C03_OperandsUnchanged", "+".join(parts)), "evaluating the expression modified an operand", wit(changed=ch))
+    elif isinstance(F, df.Field) and raised is None and obs["ok"]:
+        # the expression yields a field: what is done to that field afterwards (new labels, values written into its array)
+        # must not reach an operand either - a result that IS an operand, or that shares a mutable part with one, has not
+        # left the operand untouched (seeded changes C03-12: shared mapping dictionary renamed in place; C03-13: .real
+        # returns the operand itself for real data)
+        probes = []
+        if F.nvdim > 1 and F.vdims:
+            probes.append(("relabelling-the-result", lambda: setattr(F, "vdims", [f"r{c}" for c in range(F.nvdim)])))
+        probes.append(("writing-into-the-result", lambda: F.array.__setitem__(Ellipsis, F.array * 2 + 1)))
+        for name, act in probes:
+            try:
+                act()
+            except Exception:  # noqa: BLE001  (a result that cannot be relabelled / written is not this clause's business)
+                continue
+            ch = M.changed()
+            if ch:
+                parts = sorted({p for v in ch.values() for p in v})
+                part.violation(key("C03_OperandsUnchanged", f"after-{name}/" + "+".join(parts)),
+                               f"{name} changed an operand: the result shares a mutable part with it (or is the operand itself)", wit(changed=ch))
+                break
 
 
 def run_replay(ctx, df, r, embs):
